@@ -23,6 +23,10 @@ CLAIMED = {
          "generated search: after every CharacterData/Text call the result class, returned string, data() and length() must equal a Vec<char> model implementing the DOM Level 1 rules; offsets/counts include 0..=11 and usize::MAX, contents include astral and combining characters",
          "trusted: the Vec<char> model in props/c16.rs; parentless split_text may fail or split (DOM Level 1 does not say)",
          "DESIGN.md section 5, C16"),
+ "C15": ("stateful property-based testing (proptest): generated edit histories with markup-significant strings; print/parse round trip after every successful call",
+         "generated search: after every call that reports success each document's serialisation must parse completely and denote the merged canonical tree the live DOM reports; string arguments contain the markup-significant characters so that forbidden sequences arise from combinations of harmless edits",
+         "trusted: canonical extraction; a panic of a factory counts as refusal (C13 judges panics); histories end when a refused call changed a document (C13's subject) or the DOCTYPE/document element is taken away",
+         "DESIGN.md section 5, C15"),
 }
 ALL = ["C%02d" % i for i in range(1, 20)]
 PENDING_REASON = "check not built yet in this snapshot of /verif (work in progress; DESIGN.md section 5 describes the planned generated-search check)"
